@@ -430,7 +430,10 @@ func settings(thorough bool) []setting {
 			}
 		}
 	}
-	ss = append(ss, setting{2, 50, 4200, 80, 4}, setting{1, 200, 1, 1, 4}, setting{3, 0, 9000, 40, 4}, setting{2, 1000000, 1, 40, 4}, setting{1, 1000000, 1, 1, 3})
+	ss = append(ss, setting{2, 50, 4200, 80, 4}, setting{1, 200, 1, 1, 4}, setting{3, 0, 9000, 40, 4}, setting{2, 1000000, 1, 40, 4}, setting{1, 1000000, 1, 1, 3},
+		// five and six levels (dkv.DB uses six): a major step writes into the base level and leaves the
+		// middle levels empty, minor steps then work above a gap
+		setting{1, 200, 1, 1, 5}, setting{2, 200, 1, 1, 6})
 	return ss
 }
 
@@ -470,9 +473,9 @@ type node struct {
 }
 
 func Run(k *report.Check) {
-	k.Rule = "real-database part: histories over three keys on a real dkv.DB in which the creation of the n-th table file is held back, so that a flush lands inside a compaction step (c07.HeldOne); reads must show the latest writes throughout and after the release. Layout part: explicit-state breadth-first search over level layouts of the real sst.LevelList/Compactor: events = flush of a memtable image (seven 1- and 2-key put/delete images over {a,b,c}, fresh sequence numbers) into level 0 (at most 3 level-0 tables), Compact begin (change set computed on the current snapshot), Compact apply (flushes may land in between, as in db.go); compactor settings enumerated (trigger 1..3, amplification 0/50/200/inf %, target table size 1/2/4 entries, 3-4 levels, level size limit of one or two tables). States are cloned (level lists are immutable, the compactor is copied by value), canonicalised (sequence numbers rank-normalised; table contents per level; compactor cursor; pending change set) and deduplicated; invariants are evaluated on every transition and from every new state compaction is run to its fixed point on a clone. non-trivial = distinct states with tables in at least two levels or a multi-table sorted level"
+	k.Rule = "real-database part: histories over three keys on a real dkv.DB in which the creation of the n-th table file is held back, so that a flush lands inside a compaction step (c07.HeldOne); reads must show the latest writes throughout and after the release. Layout part: explicit-state breadth-first search over level layouts of the real sst.LevelList/Compactor: events = flush of a memtable image (seven 1- and 2-key put/delete images over {a,b,c}, fresh sequence numbers) into level 0 (at most 3 level-0 tables), Compact begin (change set computed on the current snapshot), Compact apply (flushes may land in between, as in db.go); compactor settings enumerated (trigger 1..3, amplification 0/50/200/inf %, target table size 1/2/4 entries, 3-6 levels, level size limit of one or two tables). States are cloned (level lists are immutable, the compactor is copied by value), canonicalised (sequence numbers rank-normalised; table contents per level; compactor cursor; pending change set) and deduplicated; invariants are evaluated on every transition and from every new state compaction is run to its fixed point on a clone. non-trivial = distinct states with tables in at least two levels or a multi-table sorted level"
 	k.Assumptions = []string{"rank-normalising sequence numbers merges only states with equal futures: the code only compares sequence numbers", "MemoryFilesystem; tables stay reachable from queued states, so cleanup-driven deletion (C09's subject) cannot interfere", "depth-bounded: the breadth-first search stops at the stated depth or when the time budget ends (then exhaustive=false and the last completed depth is reported)"}
-	k.Budget(110, 1200)
+	k.Budget(180, 1200)
 	ss := settings(k.Thorough())
 	maxDepth := k.Pick(7, 14)
 	name := fmt.Sprintf("layouts-bfs/maxdepth=%d", maxDepth)
